@@ -36,7 +36,8 @@ MANIFEST = dict(
           "checkAllInstancesAreFinished, onWaitDone/Engine.Wait, the four nested contexts (every cancel a separate step), instance.Run incl. "
           "recovered shot panic and gun Close. Which component fails where is a fault plan from a catalogue that is a CONSTANT of the spec "
           "(provider before first ammo/mid-run/at the very end, aggregator at once/drop error on cancel, warm-up, gun factory call j, Bind of "
-          "instance j, schedule factory (per instance / shared), shot panic, user cancel at any step, 1 or 2 pools). TLC checks Outcome, Cause, "
+          "instance j, schedule factory (per instance / shared), shot panic, user cancel at any step, 1 or 2 pools; and which error VALUE the "
+          "failing component returns: plain, wrapped, DeadlineExceeded / Canceled of its own context, the run ctx's own error late). TLC checks Outcome, Cause, "
           "GunsClosed, WaitDoneOnce, no deadlock (= nothing hangs), Termination and CancelPrompt (liveness), and must find counterexamples in "
           "the variants that model the two shipped defects and two mutants. The same catalogue, printed by TLC, drives the REAL engine with "
           "scripted mocks and seeded schedule jitter; TracePoolRun.tla accepts a recorded run only if it is a behaviour of PoolRun.tla that "
@@ -56,6 +57,7 @@ NEGATIVE = [  # (cfg, expected kind, expected name)
     ("PoolRun_neg_suppress.cfg", "invariant", "Outcome"),      # shipped: onErrAwaited gives up on the run ctx
     ("PoolRun_neg_noclose.cfg", "invariant", "GunsClosed"),
     ("PoolRun_neg_panicnil.cfg", "invariant", "Outcome"),
+    ("PoolRun_neg_isctx.cfg", "invariant", "Outcome"),         # IsCtxError accepting any context-kind cause once ctx is done
 ]
 
 
@@ -79,7 +81,8 @@ def parse_plans(r):
 
 
 def plan_sig(pl):
-    return "fault=%s shape=%s pools=%d cancel=%s" % ("/".join(p["fault"] for p in pl["pools"]),
+    return "fault=%s errvalue=%s shape=%s pools=%d cancel=%s" % ("/".join(p["fault"] for p in pl["pools"]),
+                                                                 "/".join(p.get("ek", "plain") for p in pl["pools"]),
                                                      "/".join(p["shape"] for p in pl["pools"]),
                                                      len(pl["pools"]), str(pl["cancel"]).lower())
 
